@@ -1018,6 +1018,7 @@ class SSHConnection(SSHPacketHandler, asyncio.Protocol):
             'List[asyncio.Future[_GlobalRequestResult]]' = []
 
         self._local_listeners: Dict[ListenKey, SSHListener] = {}
+        self._pending_forwarders: Set[SSHForwarder] = set()
 
         self._x11_listener: Union[None, SSHX11ClientListener,
                                   SSHX11ServerListener] = None
@@ -1077,6 +1078,9 @@ class SSHConnection(SSHPacketHandler, asyncio.Protocol):
 
         for listener in list(self._local_listeners.values()):
             listener.close()
+
+        for forwarder in list(self._pending_forwarders):
+            forwarder.close()
 
         while self._global_request_waiters:
             self._process_global_response(MSG_REQUEST_FAILURE, 0,
@@ -3391,6 +3395,16 @@ class SSHConnection(SSHPacketHandler, asyncio.Protocol):
         """Mark a local forwarding listener as closed"""
 
         self._local_listeners.pop(listen_key, None)
+
+    def add_pending_forwarder(self, forwarder: SSHForwarder) -> None:
+        """Remember an accepted connection which has no channel yet"""
+
+        self._pending_forwarders.add(forwarder)
+
+    def remove_pending_forwarder(self, forwarder: SSHForwarder) -> None:
+        """Forget an accepted connection which has no channel yet"""
+
+        self._pending_forwarders.discard(forwarder)
 
     def detach_x11_listener(self, chan: SSHChannel[AnyStr]) -> None:
         """Detach a session from a local X11 listener"""
